@@ -624,3 +624,24 @@ def inline_calls(fb, fn, should_inline, max_inlines=10):
             progress = True
             break
     return view
+
+
+def root_through_refs(fn, nid, hops=5):
+    """fn.root_var(), continued through reference-typed locals (`const auto& first = *range.begin(); first.x` is rooted
+    in `range`)."""
+    r = fn.root_var(nid) if nid is not None else None
+    while r is not None and r[0] == 'var' and hops > 0:
+        hops -= 1
+        decl = None
+        for m in fn.all_nodes():
+            if m.get('k') == 'decl':
+                for v in m['vars']:
+                    if v['d'] == r[1]:
+                        decl = v
+        if decl is None or not decl['tC'].strip().endswith('&') or not isinstance(decl.get('init'), int):
+            return r
+        nr = fn.root_var(decl['init'])
+        if nr is None:
+            return r
+        r = nr
+    return r
